@@ -331,6 +331,9 @@ Definition u2f_signreq_reissue (u chal : N) : list act :=
    return fixed the answer and cut the rest off). *)
 Fixpoint has_respond (p : list act) : bool :=
   match p with [] => false | Respond _ :: _ => true | _ :: r => has_respond r end.
+(* request i of the pool has been answered *)
+Definition answered (w : world) (i : nat) : bool :=
+  match nth_error (threads w) i with Some t => negb (has_respond (prog t)) | None => false end.
 Definition is_store_write (a : act) : bool := match a with Save _ _ | Del _ => true | _ => false end.
 (* every storage write of the program still has the Respond ahead of it *)
 Fixpoint wa_ok (p : list act) : bool :=
